@@ -3,6 +3,7 @@
 `get_term_ex` as an external = the model's `getTermEx`) agree with the model's `vmType` / `vmCan`.
 -/
 import Mathy.Proofs.PySrcAgree
+import Mathy.Proofs.PySrcAgreeTerm
 namespace Mathy.SrcAgree
 open Mathy.Py Mathy.Gen.Src
 set_option linter.unusedSimpArgs false
@@ -48,7 +49,7 @@ theorem vm_l_const (k : Ctx) (t : Nat) (lt : Nat) (lv : Rat) (r : Ex) :
   all_goals (try cases ro)
   all_goals (
     simp only [VariableMultiplyRule_get_type, vmType, vmStep, isinstance_some, left_bin, right_bin, left_const,
-      left_var, left_un, right_const, right_var, right_un, get_term_ex_none, get_term_ex_binL, get_term_ex_binR,
+      left_var, left_un, right_const, right_var, right_un, get_term_ex_agree, get_term_ex_none, get_term_ex_binL, get_term_ex_binR,
       get_term_ex_un, List.any, Cls.holds, Bool.or_false,
       show (Bop.mul == Bop.pow) = false from rfl, ← htl, ← htr]
     try generalize getTermEx false lr = tlr
@@ -69,7 +70,7 @@ theorem vm_l_var (k : Ctx) (t : Nat) (lt : Nat) (lx : Char) (r : Ex) :
   all_goals (try cases ro)
   all_goals (
     simp only [VariableMultiplyRule_get_type, vmType, vmStep, isinstance_some, left_bin, right_bin, left_const,
-      left_var, left_un, right_const, right_var, right_un, get_term_ex_none, get_term_ex_binL, get_term_ex_binR,
+      left_var, left_un, right_const, right_var, right_un, get_term_ex_agree, get_term_ex_none, get_term_ex_binL, get_term_ex_binR,
       get_term_ex_un, List.any, Cls.holds, Bool.or_false,
       show (Bop.mul == Bop.pow) = false from rfl, ← htl, ← htr]
     try generalize getTermEx false lr = tlr
@@ -90,7 +91,7 @@ theorem vm_l_un (k : Ctx) (t : Nat) (lt : Nat) (luo : Uop) (lc : Ex) (r : Ex) :
   all_goals (try cases ro)
   all_goals (
     simp only [VariableMultiplyRule_get_type, vmType, vmStep, isinstance_some, left_bin, right_bin, left_const,
-      left_var, left_un, right_const, right_var, right_un, get_term_ex_none, get_term_ex_binL, get_term_ex_binR,
+      left_var, left_un, right_const, right_var, right_un, get_term_ex_agree, get_term_ex_none, get_term_ex_binL, get_term_ex_binR,
       get_term_ex_un, List.any, Cls.holds, Bool.or_false,
       show (Bop.mul == Bop.pow) = false from rfl, ← htl, ← htr]
     try generalize getTermEx false lr = tlr
@@ -111,7 +112,7 @@ theorem vm_l_add (k : Ctx) (t : Nat) (lt : Nat) (ll lr : Ex) (r : Ex) :
   all_goals (try cases ro)
   all_goals (
     simp only [VariableMultiplyRule_get_type, vmType, vmStep, isinstance_some, left_bin, right_bin, left_const,
-      left_var, left_un, right_const, right_var, right_un, get_term_ex_none, get_term_ex_binL, get_term_ex_binR,
+      left_var, left_un, right_const, right_var, right_un, get_term_ex_agree, get_term_ex_none, get_term_ex_binL, get_term_ex_binR,
       get_term_ex_un, List.any, Cls.holds, Bool.or_false,
       show (Bop.mul == Bop.pow) = false from rfl, ← htl, ← htr]
     try generalize getTermEx false lr = tlr
@@ -132,7 +133,7 @@ theorem vm_l_sub (k : Ctx) (t : Nat) (lt : Nat) (ll lr : Ex) (r : Ex) :
   all_goals (try cases ro)
   all_goals (
     simp only [VariableMultiplyRule_get_type, vmType, vmStep, isinstance_some, left_bin, right_bin, left_const,
-      left_var, left_un, right_const, right_var, right_un, get_term_ex_none, get_term_ex_binL, get_term_ex_binR,
+      left_var, left_un, right_const, right_var, right_un, get_term_ex_agree, get_term_ex_none, get_term_ex_binL, get_term_ex_binR,
       get_term_ex_un, List.any, Cls.holds, Bool.or_false,
       show (Bop.mul == Bop.pow) = false from rfl, ← htl, ← htr]
     try generalize getTermEx false lr = tlr
@@ -153,7 +154,7 @@ theorem vm_l_mul (k : Ctx) (t : Nat) (lt : Nat) (ll lr : Ex) (r : Ex) :
   all_goals (try cases ro)
   all_goals (
     simp only [VariableMultiplyRule_get_type, vmType, vmStep, isinstance_some, left_bin, right_bin, left_const,
-      left_var, left_un, right_const, right_var, right_un, get_term_ex_none, get_term_ex_binL, get_term_ex_binR,
+      left_var, left_un, right_const, right_var, right_un, get_term_ex_agree, get_term_ex_none, get_term_ex_binL, get_term_ex_binR,
       get_term_ex_un, List.any, Cls.holds, Bool.or_false,
       show (Bop.mul == Bop.pow) = false from rfl, ← htl, ← htr]
     try generalize getTermEx false lr = tlr
@@ -174,7 +175,7 @@ theorem vm_l_div (k : Ctx) (t : Nat) (lt : Nat) (ll lr : Ex) (r : Ex) :
   all_goals (try cases ro)
   all_goals (
     simp only [VariableMultiplyRule_get_type, vmType, vmStep, isinstance_some, left_bin, right_bin, left_const,
-      left_var, left_un, right_const, right_var, right_un, get_term_ex_none, get_term_ex_binL, get_term_ex_binR,
+      left_var, left_un, right_const, right_var, right_un, get_term_ex_agree, get_term_ex_none, get_term_ex_binL, get_term_ex_binR,
       get_term_ex_un, List.any, Cls.holds, Bool.or_false,
       show (Bop.mul == Bop.pow) = false from rfl, ← htl, ← htr]
     try generalize getTermEx false lr = tlr
@@ -195,7 +196,7 @@ theorem vm_l_pow (k : Ctx) (t : Nat) (lt : Nat) (ll lr : Ex) (r : Ex) :
   all_goals (try cases ro)
   all_goals (
     simp only [VariableMultiplyRule_get_type, vmType, vmStep, isinstance_some, left_bin, right_bin, left_const,
-      left_var, left_un, right_const, right_var, right_un, get_term_ex_none, get_term_ex_binL, get_term_ex_binR,
+      left_var, left_un, right_const, right_var, right_un, get_term_ex_agree, get_term_ex_none, get_term_ex_binL, get_term_ex_binR,
       get_term_ex_un, List.any, Cls.holds, Bool.or_false,
       show (Bop.mul == Bop.pow) = false from rfl, ← htl, ← htr]
     try generalize getTermEx false lr = tlr
@@ -216,7 +217,7 @@ theorem vm_l_eq (k : Ctx) (t : Nat) (lt : Nat) (ll lr : Ex) (r : Ex) :
   all_goals (try cases ro)
   all_goals (
     simp only [VariableMultiplyRule_get_type, vmType, vmStep, isinstance_some, left_bin, right_bin, left_const,
-      left_var, left_un, right_const, right_var, right_un, get_term_ex_none, get_term_ex_binL, get_term_ex_binR,
+      left_var, left_un, right_const, right_var, right_un, get_term_ex_agree, get_term_ex_none, get_term_ex_binL, get_term_ex_binR,
       get_term_ex_un, List.any, Cls.holds, Bool.or_false,
       show (Bop.mul == Bop.pow) = false from rfl, ← htl, ← htr]
     try generalize getTermEx false lr = tlr
